@@ -149,6 +149,7 @@ def sock_cases(tier):
                 data = ''.join(l + eol for l in pre) + bl + eol
                 raw = data.encode('utf-8', 'surrogateescape') if '\x80' not in data else data.encode('latin1')
                 out.append((tuple(pre), bl, eol, raw, None))
+                out.append((tuple(pre), bl, eol, raw, 'abort'))      # peer aborts right after its banner: our own banner cannot be sent
                 step = 1 if tier != 'quick' else 3
                 for k in range(1, len(raw), step):
                     out.append((tuple(pre), bl, eol, raw, k))
@@ -157,8 +158,12 @@ def sock_cases(tier):
 
 def work_sock(chunk, st):
     for pre, bl, eol, raw, split in chunk:
+        abort = split == 'abort'
+        if abort:
+            split = None
         chunks = [raw] if split is None else [raw[:split], raw[split:]]
         srv = RawServer(chunks)
+        srv.then_abort = abort
         w = H.world_for(srv)
         vnet.set_world(w)
         s = SSH_Socket(OutputBuffer(), H.HOST, 22, timeout=1)
@@ -167,8 +172,8 @@ def work_sock(chunk, st):
         s.close()
         lines = [RB.decode_line(x) for x in raw.replace(b'\r\n', b'\n').split(b'\n')[:-1]]
         want, wheader = RB.scan(lines)
-        st.execution(w, outcome=('sock', b is not None, len(header)), root=('sock', pre, bl, eol, split), nontrivial=('sock', pre, bl, eol, split))
-        tag = 'split' if split is not None else 'whole'
+        st.execution(w, outcome=('sock', b is not None, len(header), abort), root=('sock', pre, bl, eol, split, abort), nontrivial=('sock', pre, bl, eol, split, abort))
+        tag = 'send-fails' if abort else 'split' if split is not None else 'whole'
         if b is None:
             st.violation('socket:%s:banner-not-found' % tag, {'pre': pre, 'banner': bl, 'eol': eol, 'split': split, 'err': err, 'header': header})
             continue
